@@ -107,10 +107,11 @@ def prop_C03(run):
     rules_err.err4(run)
     n5 = rules_err.err5(run, reach)
     run.floor("ERR5", "fallible call sites", n5, 300)
+    rules_err.idx0(run, reach)
     np_ = rules_err.pair(run, reach)
     run.floor("PAIR", "functions pushing parents", np_, 12)
     run.rules_run += ["ERR1 Err => message pushed (interprocedural path-state search)", "ERR3 Unresolved/None in a last pass => message pushed",
-                      "ERR2-top output stored only behind a stop_at_errors barrier, nothing fails after", "ERR4 driver writes only behind the output test; exit status follows the verdict", "ERR5 no Result<_,()> dropped", "PAIR push_parent/pop_parent balance"]
+                      "ERR2-top output stored only behind a stop_at_errors barrier, nothing fails after", "ERR4 driver writes only behind the output test; exit status follows the verdict", "ERR5 no Result<_,()> dropped", "IDX0 callers of functions that index a parameter with a constant establish non-emptiness", "PAIR push_parent/pop_parent balance"]
 
 
 def prop_C02(run):
@@ -118,8 +119,12 @@ def prop_C02(run):
     rules_fix.fix1(run)
     rules_fix.fix2(run)
     rules_fix.fix3(run)
+    rules_fix.fix5(run)
     rules_err.err3(run)
-    run.rules_run += ["FIX1 confirming no-guess pass dominates every delivered result", "FIX2 each stateful resolver compares with the previous pass and returns Unresolved on change",
+    import rules_idx
+    rules_idx.static_known(run)
+    rules_idx.sk_provider(run)
+    run.rules_run += ["FIX5 every candidate re-evaluated in every pass", "SK static-known analysis conservative (a frozen item must really be constant)", "FIX1 confirming no-guess pass dominates every delivered result", "FIX2 each stateful resolver compares with the previous pass and returns Unresolved on change",
                       "FIX3 resolved=true only under the static-known conjunction", "ERR3 unstable value in a last pass is an error"]
 
 
@@ -139,6 +144,7 @@ def prop_C08(run):
     rules_fix.fix3(run)
     rules_idx.tab_idx(run)
     rules_idx.static_known(run)
+    rules_idx.sk_provider(run)
     run.rules_run += ["GATE who-touches audit of the two optimisation switches", "FIX3", "TAB-idx writer/reader/matcher agreement of the rule-prefix index", "SK conservativeness of is_value_statically_known per Expr variant"]
 
 
